@@ -143,6 +143,11 @@ def run_case(case, w):
         for f, v in exp.items():
             if getattr(r, f) != v:
                 bad.append(("vm:%s" % f, "%s: got %r expected %r (case %r)" % (f, getattr(r, f), v, case)))
+        # byte counts are integers (a number of bytes), the percentage a float
+        for f in r._fields:
+            v = getattr(r, f)
+            if (type(v) is not float) if f == "percent" else (type(v) is not int):
+                bad.append(("vm:type:%s" % f, "%s = %r is a %s (case %r)" % (f, v, type(v).__name__, case)))
         total = exp["total"]
         if 0 <= est <= total:
             if r.available != est:
@@ -196,6 +201,8 @@ def run_case(case, w):
         exp = (total, used, free, pct, sin, sout)
         if got[0] != "ok" or tuple(got[1]) != exp:
             bad.append(("swap:%s" % vm, "swap_memory() -> %r expected %r (case %r)" % (freeze(got), exp, case)))
+        elif [type(x) for x in got[1]] != [int, int, int, float, int, int]:
+            bad.append(("swap:type", "swap_memory() -> %r: field types %r" % (freeze(got), [type(x).__name__ for x in got[1]])))
         if vm in ("absent", "neither", "onlyin", "denied") and not any(issubclass(x.category, RuntimeWarning) for x in ws):
             bad.append(("swap:no-warning", "no RuntimeWarning for vmstat %r" % vm))
     return bad
